@@ -38,6 +38,14 @@ HexDigit(d) == IF d < 10 THEN 48 + d ELSE 97 + (d - 10)
 RECURSIVE HexDigits(_)
 HexDigits(x) == IF x < 16 THEN <<HexDigit(x)>> ELSE HexDigits(x \div 16) \o <<HexDigit(x % 16)>>
 Hex(x) == <<48, 120>> \o HexDigits(x)
+\* the same on a decimal numeral given as its digits (most significant first): numbers beyond TLC's 32-bit integers.
+\* Long division by 16, digit by digit; every intermediate value stays below 160.
+RECURSIVE LongDiv16(_,_,_,_)
+LongDiv16(ds, i, rem, q) == IF i > Len(ds) THEN [q |-> q, r |-> rem]
+   ELSE LET cur == rem * 10 + ds[i] IN LongDiv16(ds, i + 1, cur % 16, IF q = <<>> /\ cur \div 16 = 0 THEN <<>> ELSE Append(q, cur \div 16))
+RECURSIVE HexOfDigits(_)
+HexOfDigits(ds) == LET d == LongDiv16(ds, 1, 0, <<>>) IN IF d.q = <<>> THEN <<HexDigit(d.r)>> ELSE HexOfDigits(d.q) \o <<HexDigit(d.r)>>
+HexDec(ds) == <<48, 120>> \o HexOfDigits(ds)
 \* ---- JSON: every node is [t, v, items]: t in obj | arr | str | num | bool | null; v = the scalar's text;
 \* items = sequence of [key, val] (key = "" in arrays)
 Node(t, v, items) == [t |-> t, v |-> v, items |-> items]
